@@ -282,7 +282,10 @@ class Bisection1D:
 
         coordinates = self.coordinates_domain[i]
 
-        self.calculate_excess(coordinates, self.sim_params.max_height, self.fieldDescriptors[i])
+        # keep the result: this field is part of what the search evaluated, so it takes part in the final selection
+        self.calculated_temperatures[i] = self.calculate_excess(
+            coordinates, self.sim_params.max_height, self.fieldDescriptors[i]
+        )
         # Make sure the field being returned pertains to the index which is the
         # closest to 0 but also negative (the maximum of all 0 or negative
         # excess temperatures)
